@@ -1,3 +1,5 @@
+import NrDaemon.Props.Reviewed
+import NrDaemon.Gen.Skeleton
 import NrDaemon.Model.Json
 /-!
   C08 — every outbound payload is well-formed for its endpoint.
@@ -650,3 +652,12 @@ def logLiteralsOk : Bool :=
   bs "[{\"common\": {\"attributes\": " == bs "[" ++ (bs "{" ++ (bs "\"common\"" ++ (bs ": " ++ (bs "{" ++ (bs "\"attributes\"" ++ bs ": "))))) &&
   bs "},\"logs\": " == bs "}" ++ (bs "," ++ (bs "\"logs\"" ++ bs ": ")) && bs "}]" == bs "}" ++ bs "]"
 #guard logLiteralsOk
+
+
+/-! ## Ties to the current source: the functions transcribed by the model have not changed since they were reviewed (`Props/Reviewed.lean`) -/
+
+/-- **C08 (tie).**  `setLogForwardingLabels`: one invalid label discards the list. -/
+theorem C08_set_labels_source_tied : Gen.Skeleton.setLogForwardingLabels = Reviewed.setLogForwardingLabels := rfl
+
+/-- **C08 (tie).**  `logCollectorJSON`: labels through a map and encoding/json; short events skipped; separators between written events only. -/
+theorem C08_log_json_source_tied : Gen.Skeleton.logCollectorJSON = Reviewed.logCollectorJSON := rfl
